@@ -8,7 +8,7 @@
 (* Variable-free; used by Codec.tla (the model) and CodecTrace.tla.        *)
 (*                                                                         *)
 (* Values (tagged, because TLC equality is typed):                         *)
-(*   [t|->"int",v|->k]  [t|->"tok",v|->name]  [t|->"wide",b|->bits]        *)
+(*   [t|->"int",v|->k]  [t|->"tok",name|->name]  [t|->"wide",b|->bits]        *)
 (*   [t|->"bytes",v|->Seq(0..255)]  [t|->"text",v|->Seq(code point)]       *)
 (*   [t|->"float",v|->Seq(0..255)] (IEEE pattern, big endian)              *)
 (*   [t|->"dict",v|-><< <<name,val>>,... >>]  [t|->"list",v|-><<val,...>>] *)
@@ -110,10 +110,13 @@ EncAtomic(dct, v, st, bit) ==
            ELSE EmplaceBytes(EmplaceValue(st, UBits(Len(raw), dct.bits), bit, ~dct.hilo), raw)
       [] dct.k = "paramlen" ->
            \* the bit length comes from the length key, or defines it
-           LET given == PairsGet(st.lk, dct.key)
-               raw == IF IsNumeric(dct.base) THEN <<>> ELSE RawBytes(dct, v)
-               own == IF dct.base \in {"uint", "int"} THEN dct.nbits ELSE 8 * Len(raw)
-               n == IF IsMissing(given) THEN own ELSE given
+           LET raw == IF IsNumeric(dct.base) THEN <<>> ELSE RawBytes(dct, v)
+               \* without an explicit key value, integers take the fewest whole bytes that hold them
+               abs == IF v.t = "int" THEN (IF v.v < 0 THEN -v.v ELSE v.v) ELSE 0
+               own == IF dct.base \in {"uint", "int"}
+                      THEN (IF v.t = "int" THEN 8 * ((BitLength(abs) + (IF dct.base = "int" THEN 1 ELSE 0) + 7) \div 8) ELSE dct.nbits)
+                      ELSE 8 * Len(raw)
+               n == IF PairsHas(st.lk, dct.key) THEN PairsGet(st.lk, dct.key) ELSE own
                s1 == [st EXCEPT !.lk = PairsPut(st.lk, dct.key, n)]
            IN IF dct.base \in {"uint", "int"} THEN
                   (IF v.t \notin {"int", "tok"} THEN Err(st)
@@ -167,10 +170,9 @@ PatchKeys(ps, i, st) ==
     IF i > Len(ps) \/ st.err THEN st
     ELSE IF ps[i].k = "LENGTH-KEY" THEN
         LET p == ps[i]
-            val == PairsGet(st.lk, p.n)
             s0 == [st EXCEPT !.cur = PairsGet(st.kp, p.n)]
-        IN IF IsMissing(val) THEN Err(st)
-           ELSE PatchKeys(ps, i + 1, EncDop(p.dop, IntV(val), s0, IF p.bi >= 0 THEN p.bi ELSE 0))
+        IN IF ~PairsHas(st.lk, p.n) THEN Err(st)
+           ELSE PatchKeys(ps, i + 1, EncDop(p.dop, IntV(PairsGet(st.lk, p.n)), s0, IF p.bi >= 0 THEN p.bi ELSE 0))
     ELSE PatchKeys(ps, i + 1, st)
 
 \* a parameter list (request, response, structure): positions are relative to where it starts
@@ -228,7 +230,7 @@ PduBytes(st) == BitsBytes(st.pdu)
 
 ---------------------------------------------------------------------------
 (* decoder *)
-DecInit(pdu) == [pdu |-> pdu, cur |-> 0, org |-> 0, lk |-> <<>>, err |-> FALSE, mism |-> FALSE]
+DecInit(pdu) == [pdu |-> pdu, cur |-> 0, org |-> 0, lk |-> <<>>, err |-> FALSE, mism |-> FALSE, hi |-> 0]
 DErr(ds) == [ds EXCEPT !.err = TRUE]
 R(ds, v) == [ds |-> ds, v |-> v]
 NBytes(ds) == Len(ds.pdu) \div 8
@@ -240,7 +242,8 @@ Extract(ds, n, bit, swap) ==
     ELSE LET win0 == SubSeq(ds.pdu, 8 * ds.cur + 1, 8 * (ds.cur + w))
              win == IF swap THEN RevBytes(win0) ELSE win0
              pad == 8 * w - n - bit
-         IN [ds |-> [ds EXCEPT !.cur = ds.cur + w], bits |-> SubSeq(win, pad + 1, pad + n)]
+         IN [ds |-> [ds EXCEPT !.cur = ds.cur + w, !.hi = IF ds.cur + w > ds.hi THEN ds.cur + w ELSE ds.hi],
+             bits |-> SubSeq(win, pad + 1, pad + n)]
 
 BytesVal(dct, bs) ==
     IF dct.base = "bytes" THEN [ok |-> TRUE, v |-> [t |-> "bytes", v |-> bs]]
@@ -251,10 +254,15 @@ FindTerm(bs, from, to, term, start) ==
     LET cands == {k \in from..(to - Len(term)) : (k - start) % Len(term) = 0 /\ SubSeq(bs, k + 1, k + Len(term)) = term} IN
     IF cands = {} THEN -1 ELSE CHOOSE k \in cands : \A j \in cands : k <= j
 
+\* the value of zero bits
+EmptyOf(dct) == CASE dct.base \in {"uint", "int"} -> IntV(0)
+                  [] dct.base = "bytes" -> [t |-> "bytes", v |-> <<>>]
+                  [] dct.base \in {"ascii", "utf8", "ucs2"} -> [t |-> "text", v |-> <<>>]
+                  [] OTHER -> Missing
 DecAtomic(dct, ds, bit) ==
     IF ds.err THEN R(ds, Missing) ELSE
     CASE dct.k = "std" ->
-           IF dct.bits = 0 THEN R(ds, IF dct.base \in {"uint", "int"} THEN IntV(0) ELSE Missing)
+           IF dct.bits = 0 THEN R(ds, EmptyOf(dct))
            ELSE LET e == Extract(ds, dct.bits, bit, IsNumeric(dct.base) /\ ~dct.hilo) IN
                 IF e.ds.err THEN R(e.ds, Missing)
                 ELSE IF dct.base \in {"uint", "int"} THEN R(e.ds, BitsInt(e.bits, dct.base, dct.enc))
@@ -272,7 +280,8 @@ DecAtomic(dct, ds, bit) ==
                     \* the terminator is consumed unless the value ended at MAX-LENGTH or at the end of the PDU
                     cur2 == IF dct.term # "END-OF-PDU" /\ after # n /\ len # dct.max THEN after + Len(TermSeq(dct)) ELSE after
                     bv == BytesVal(dct, raw)
-                IN IF bv.ok THEN R([ds EXCEPT !.cur = cur2], bv.v) ELSE R(DErr(ds), Missing)
+                IN IF bv.ok THEN R([ds EXCEPT !.cur = cur2, !.hi = IF cur2 > ds.hi THEN cur2 ELSE ds.hi], bv.v)
+                   ELSE R(DErr(ds), Missing)
       [] dct.k = "leading" ->
            LET e == Extract(ds, dct.bits, bit, ~dct.hilo) IN
            IF e.ds.err \/ ~Small(e.bits) THEN R(DErr(e.ds), Missing)
@@ -281,9 +290,9 @@ DecAtomic(dct, ds, bit) ==
                 IF e2.ds.err THEN R(e2.ds, Missing)
                 ELSE LET bv == BytesVal(dct, BitsBytes(e2.bits)) IN IF bv.ok THEN R(e2.ds, bv.v) ELSE R(DErr(e2.ds), Missing)
       [] dct.k = "paramlen" ->
-           LET n == PairsGet(ds.lk, dct.key) IN
-           IF IsMissing(n) THEN R(DErr(ds), Missing)
-           ELSE IF n = 0 THEN R(ds, IF dct.base \in {"uint", "int"} THEN IntV(0) ELSE Missing)
+           IF ~PairsHas(ds.lk, dct.key) THEN R(DErr(ds), Missing)
+           ELSE LET n == PairsGet(ds.lk, dct.key) IN
+           IF n = 0 THEN R(ds, EmptyOf(dct))
            ELSE LET e == Extract(ds, n, bit, IsNumeric(dct.base) /\ ~dct.hilo) IN
                 IF e.ds.err THEN R(e.ds, Missing)
                 ELSE IF dct.base \in {"uint", "int"} THEN R(e.ds, BitsInt(e.bits, dct.base, dct.enc))
@@ -341,12 +350,14 @@ DecDop(d, ds, bit) ==
            LET r == DecComposite(d.ps, ds) IN
            IF r.ds.err \/ d.bs < 0 THEN r
            ELSE IF r.ds.cur - ds.cur > d.bs THEN R(DErr(r.ds), Missing)
-           ELSE R([r.ds EXCEPT !.cur = ds.cur + d.bs], r.v)
+           ELSE R([r.ds EXCEPT !.cur = ds.cur + d.bs, !.hi = IF ds.cur + d.bs > r.ds.hi THEN ds.cur + d.bs ELSE r.ds.hi], r.v)
       [] d.k = "sfield" ->
            LET RECURSIVE Items(_, _, _)
                Items(i, s, acc) == IF i > d.cnt \/ s.err THEN R(s, [t |-> "list", v |-> acc])
                                    ELSE LET r == DecDop(d.st, s, 0) IN
-                                        Items(i + 1, [r.ds EXCEPT !.cur = s.cur + d.isz], Append(acc, r.v))
+                                        Items(i + 1, [r.ds EXCEPT !.cur = s.cur + d.isz,
+                                                                 !.hi = IF s.cur + d.isz > r.ds.hi THEN s.cur + d.isz ELSE r.ds.hi],
+                                              Append(acc, r.v))
                r0 == Items(1, [ds EXCEPT !.org = ds.cur], <<>>)
            IN R([r0.ds EXCEPT !.org = ds.org], r0.v)
       [] d.k = "dlfield" ->
